@@ -30,7 +30,7 @@ REQUIRED = {"server_frames_validated": 2000, "download_store_compared": 300, "up
 EXHAUSTIVE = ["payload lengths 0..64 for download() and upload() on every server style"]
 
 BOUNDARY_Q = [27, 28, 29, 34, 35, 36, 62, 63, 64, 126, 127, 128]
-BOUNDARY_T = [126, 127, 128, 255, 256, 888, 889, 890, 895, 896, 1000, 4096, 10000]
+BOUNDARY_T = [126, 127, 128, 255, 256, 888, 889, 890, 895, 896, 1000, 4096, 10000, 70000]
 MUXES = [(0x0001, 0), (0x1000, 0), (0x1018, 1), (0x2000, 0xFF), (0x5FFF, 0xFE), (0xFFFF, 0), (0xFFFF, 0xFF), (0x6040, 0), (0x1F50, 1)]
 
 
